@@ -198,3 +198,23 @@ def ref_defined_on_prefixes(asts, data, n):
         if not ref_defined(asts, False, dict((v, data[v][:m]) for v in data), m):
             return False
     return True
+
+
+def warmup_visible(ast):
+    """Regions of the open known finding F08 (the warm-up outputs of a delayed operand are visible to the operator
+    above it). Returns the names of the envelope rules the formula falls under:
+      memory-past-above-delayed           a memoryful past operator above a sub-formula with horizon > 0
+      partial-function-over-delayed       log(x, base) whose two operands have different horizons: the shallower one is
+                                          delayed by once[d,d], is -inf during the first d updates and math.log raises
+                                          (pow and division accept -inf)
+    """
+    out = []
+    for x in sg.walk(ast):
+        ch = sg.children(x)
+        if x[0] in sg.MEMORY_PAST and any(sg.horizon(c) > 0 for c in ch):
+            if 'memory-past-above-delayed' not in out:
+                out.append('memory-past-above-delayed')
+        if x[0] == 'log' and len(ch) == 2 and sg.horizon(ch[0]) != sg.horizon(ch[1]):
+            if 'partial-function-over-delayed' not in out:
+                out.append('partial-function-over-delayed')
+    return out
